@@ -810,7 +810,7 @@ impl Property for C10 {
         384
     }
     fn cases(&self, tier: Tier) -> u64 {
-        tier.pick(2_000_000, 80_000_000)
+        tier.pick(3_000_000, 80_000_000)
     }
     fn run_tape(&self, tape: &[u8], ctx: &mut Ctx) -> Result<(), Failure> {
         let cfg = gen_cfg(tape, 20);
